@@ -32,6 +32,14 @@ func newCache[H Hash]() cache[H] {
 }
 
 func (c *cache[H]) getHeight(h uint32) *inbox[H] {
+	// Heights below the requested one are over (decided here or obtained
+	// from the ledger), their messages can never be used again.
+	for old := range c.mail {
+		if old < h {
+			delete(c.mail, old)
+		}
+	}
+
 	if m, ok := c.mail[h]; ok {
 		delete(c.mail, h)
 		return m
